@@ -23,7 +23,7 @@ type kind struct {
 
 const nonBMP = `"😀"`
 
-// receivers: the 31 this-value kinds of DESIGN.md C02 (1). Array-likes have
+// receivers: the 31 this-value kinds of DESIGN.md C02 (1) plus 12 added later. Array-likes have
 // length <= 4 so that legitimate O(length) loops cannot be mistaken for wedges.
 var receivers = []kind{
 	{Name: "undefined", Expr: `undefined`},
@@ -57,9 +57,24 @@ var receivers = []kind{
 	{Name: "go-map", Bridged: "map"},
 	{Name: "go-slice", Bridged: "slice"},
 	{Name: "go-array", Bridged: "array"},
+	// third round: strings held as []uint16 (everything String.fromCharCode
+	// builds), the prototype objects (class-tagged objects that may lack the
+	// payload of a real instance) and a bridged map with a named key type
+	{Name: "str-u16", Expr: `String.fromCharCode(49, 50)`},
+	{Name: "str-lone", Expr: `String.fromCharCode(0xD800)`},
+	{Name: "proto-Object", Expr: `Object.prototype`},
+	{Name: "proto-Function", Expr: `Function.prototype`},
+	{Name: "proto-Array", Expr: `Array.prototype`},
+	{Name: "proto-String", Expr: `String.prototype`},
+	{Name: "proto-Number", Expr: `Number.prototype`},
+	{Name: "proto-Boolean", Expr: `Boolean.prototype`},
+	{Name: "proto-Date", Expr: `Date.prototype`},
+	{Name: "proto-RegExp", Expr: `RegExp.prototype`},
+	{Name: "proto-Error", Expr: `Error.prototype`},
+	{Name: "go-named-map", Bridged: "nmap"},
 }
 
-// arguments: the 22 argument value kinds.
+// arguments: the 22 argument value kinds of the design plus 4 added later.
 var argKinds = []kind{
 	{Name: "undefined", Expr: `undefined`},
 	{Name: "null", Expr: `null`},
@@ -83,10 +98,17 @@ var argKinds = []kind{
 	{Name: "thrower", Expr: `({valueOf:function(){throw new TypeError("v")},toString:function(){throw new TypeError("s")}})`},
 	{Name: "go-slice", Bridged: "slice"},
 	{Name: "go-map", Bridged: "map"},
+	{Name: "str-u16", Expr: `String.fromCharCode(49, 50)`},
+	{Name: "str-lone", Expr: `String.fromCharCode(0xD800)`},
+	{Name: "proto-RegExp", Expr: `RegExp.prototype`},
+	{Name: "proto-Date", Expr: `Date.prototype`},
 }
 
 // quickPairKinds: the 8-kind subset used for the arity-2 product in the quick tier.
 var quickPairKinds = []string{"undefined", "null", "1", "2^32", "str-abc", "object", "array", "function"}
+
+// NamedKey is a named string type used as the key type of a bridged map.
+type NamedKey string
 
 // GoStruct is the bridged struct kind.
 type GoStruct struct {
@@ -117,6 +139,8 @@ func freshBridged(b string) interface{} {
 		return []int{1, 2, 3}
 	case "array":
 		return &[3]int{1, 2, 3}
+	case "nmap":
+		return map[NamedKey]int{"a": 1, "b": 2}
 	}
 	panic("bridged kind " + b)
 }
